@@ -103,7 +103,7 @@ func ruleT1(c *Ctx) {
 		})
 		c.check(quoted && unq, "predicate id quoting printer = parser", pStr.Pos(), "%q paired with strconv.Unquote", "the predicate id is not written with %q while predicate.Parse unquotes it (or the other way round): ids with quotes or escapes do not round-trip")
 		// the anchor delimiter the parser searches for occurs in the printer's format
-		idxArgs := c.constStringArgs(pParse, "strings", "Index", 1)
+		idxArgs := append(c.constStringArgs(pParse, "strings", "Index", 1), c.constStringArgs(pParse, "strings", "LastIndex", 1)...)
 		okDelim := len(idxArgs) > 0
 		for _, d := range idxArgs {
 			for _, s := range fm {
@@ -119,7 +119,7 @@ func ruleT1(c *Ctx) {
 	lParse := c.mustFunc("triple/literal", "unboundBuilder.Parse")
 	if lStr != nil && lParse != nil {
 		fm := c.constStringArgs(lStr, "fmt", "Sprintf", 0)
-		seps := c.constStringArgs(lParse, "strings", "Index", 1)
+		seps := append(c.constStringArgs(lParse, "strings", "Index", 1), c.constStringArgs(lParse, "strings", "LastIndex", 1)...)
 		ok := len(fm) == 1 && len(seps) >= 1
 		for _, s := range seps {
 			if len(fm) == 1 && !strings.Contains(fm[0], s) {
@@ -128,12 +128,35 @@ func ruleT1(c *Ctx) {
 		}
 		c.check(ok, "literal separator printer = parser", lStr.Pos(), fmt.Sprintf("printer format %q contains the separator %q the parser searches", fm, seps), fmt.Sprintf("Literal.String writes %q but the parser looks for %q", fm, seps))
 	}
+	// (c2) the closing delimiter of a quoted part is the last one: the id of a predicate is printed with %q and the
+	// text of a literal as it stands, so either may contain the delimiter itself; what follows the real delimiter
+	// (anchor, type name) never does — the parser has to search from the right
+	for _, pf := range []struct{ rel, fn, what string }{
+		{"triple/predicate", "Parse", "predicate id"},
+		{"triple/literal", "unboundBuilder.Parse", "literal text"},
+	} {
+		fn := c.lookupFunc(pf.rel, pf.fn)
+		if fn == nil {
+			continue
+		}
+		var first []string
+		walkHelpers(fn, 2, func(_ *ssa.Function, in ssa.Instruction, _ ssa.Instruction) {
+			call, ok := in.(*ssa.Call)
+			if !ok || !isCallTo(&call.Call, "strings", "Index") || len(call.Call.Args) < 2 {
+				return
+			}
+			if k, ok := resolveParam(call.Call.Args[1]).(*ssa.Const); ok && k.Value != nil && k.Value.Kind() == constant.String && strings.HasPrefix(constant.StringVal(k.Value), "\"") {
+				first = append(first, fmt.Sprintf("%q at %s", constant.StringVal(k.Value), c.pos(in.Pos())))
+			}
+		})
+		c.check(len(first) == 0, funcName(fn)+" finds the closing delimiter from the right", fn.Pos(), "no left-to-right search for a delimiter that starts with the closing quote", fmt.Sprintf("the closing delimiter is located with strings.Index (%s), i.e. at its first occurrence: a %s that contains the delimiter is printed but does not parse back", strings.Join(first, ", "), pf.what))
+	}
 	// (d) node delimiters
 	nStr := c.mustFunc("triple/node", "Node.String")
 	nParse := c.mustFunc("triple/node", "Parse")
 	if nStr != nil && nParse != nil {
 		fm := c.constStringArgs(nStr, "fmt", "Sprintf", 0)
-		seps := c.constStringArgs(nParse, "strings", "Index", 1)
+		seps := append(c.constStringArgs(nParse, "strings", "Index", 1), c.constStringArgs(nParse, "strings", "LastIndex", 1)...)
 		ok := len(fm) >= 1 && len(seps) >= 1
 		for _, f := range fm {
 			for _, s := range seps {
@@ -226,7 +249,7 @@ func ruleT1(c *Ctx) {
 			return false
 		}
 		nOut, okW := 0, true
-		allInstrs(wg, func(in ssa.Instruction) {
+		walkHelpers(wg, 2, func(_ *ssa.Function, in ssa.Instruction, _ ssa.Instruction) {
 			call, ok := in.(*ssa.Call)
 			if !ok {
 				return
